@@ -376,8 +376,8 @@ mutant("c02-no-path-reset-on-bounce", "C02", GRAPH,
 mutant("c02-incompatible-workers-never-recorded", "C02", GRAPH,
        '''                test_node.incompatible_workers.add(test_object.long_suffix)''',
        '''                pass''', checks=["C02"],
-       note="judged equivalent w.r.t. the stated properties: the flat test is parsed again on every visit and cleanups are postponed "
-            "for as long as it stays unexpanded (states are kept, which no property forbids); the traversals still end")
+       note="missed in the first audits (judged equivalent then); caught as a livelock once worker order and restricted-first worker "
+            "sets were part of the C02 workload")
 mutant("c03-no-unknown-placeholder", "C03", RUNNER,
        '''        node_result = {"name": name, "status": "UNKNOWN"}
         node.results += [node_result]''',
